@@ -1,6 +1,7 @@
 import CoapVerif.Lemmas.OscorePlain
 import CoapVerif.Lemmas.OscoreSeq
 import CoapVerif.Lemmas.OscoreCtx
+import CoapVerif.Lemmas.OscoreCtxSeq
 /-
 C14 — OSCORE protection round-trips, matches RFC 8613, and tampering is detected by the tag.
 
@@ -752,6 +753,95 @@ theorem request_for_unknown_context_rejected (cipher : Bytes → Bytes → Bytes
     simp only [hov, hd, hs]
     by_cases hp : m.payload = [] <;> simp [hp]
 
+/-! ### Requests under SEVERAL contexts interleaved on ONE server session (D14.19; S: Spec/OscoreCtxSeq.lean, M: Model/OscoreSrv.lean) -/
+
+/-- **A response is protected with the context of the request it answers (S).**  A server holds the unambiguous set `cs`
+(D14.18); a client with the context `cC` matching `cR ∈ cs` protects request `m`; the server verifies it and then sees ANY
+sequence `mid` of events that concern other tokens — requests for any of its other contexts (each re-directs "the context
+used last"), forged ones, responses to other requests.  Then (1) the server recovered `m`, (2) the token of `m` is still
+bound to `m`'s binding AND to `cR` (RFC 8613 §8.3 step 1: "the Security Context associated with the Token"), and (3) every
+response the server protects for that token — with or without its own Partial IV — is unprotected by the client to the
+server's message.  For every block cipher, encodable messages. -/
+theorem interleaved_contexts_roundtrip (cipher : Bytes → Bytes → Bytes) (cs : List Ctx) (hu : Unambiguous cs)
+    (cC cR : Ctx) (hR : cR ∈ cs) (hCR : Matching cC cR) (hRC : Matching cR cC) (m : Msg) (seq : Nat)
+    (hsorted : m.opts.Pairwise (fun a b => a.1 ≤ b.1))
+    (hcode : m.code < 256)
+    (hwire : ∀ o ∈ m.opts, o.1 ≤ 65535 ∧ o.2.length ≤ 65804)
+    (hopt : (optEncode ⟨pivBytes seq, cC.idctx, some cC.sid⟩).length ≤ 255)
+    (st : CStore) (mid : List XStep) (hmid : ∀ s ∈ mid, s.token ≠ m.token) :
+    ∀ r, protectRequest cipher cC m seq = some r →
+      (serverRecvAny cipher cs st r.1).1 = .ok m r.2 ∧
+      cFind (serverRunAny cipher cs (serverRecvAny cipher cs st r.1).2 mid) m.token =
+        some ⟨m.token, r.2, isRegistration m.opts, cR⟩ ∧
+      ∀ (rm : Msg) (rseq sepMid : Option Nat) (pr : Msg) (st3 : CStore), rm.token = m.token →
+        rm.opts.Pairwise (fun a b => a.1 ≤ b.1) → rm.code < 256 → (∀ o ∈ rm.opts, o.1 ≤ 65535 ∧ o.2.length ≤ 65804) →
+        serverSendAny cipher (serverRunAny cipher cs (serverRecvAny cipher cs st r.1).2 mid) rm rseq sepMid = some (pr, st3) →
+        unprotectResponse cipher cC (some r.2) pr =
+          .ok { normalize false (match rseq with | some n => pivBytes n | none => r.2.piv) rm with type := pr.type, mid := pr.mid } r.2 := by
+  intro r hr
+  have hone := unprotect_protect_request cipher cC cR m seq hCR hsorted hcode hwire hopt r hr
+  have hany := unprotect_any_eq cipher cs hu cR hR r.1 m r.2 hone
+  have hsel := selectFor_of_ok cipher cs hu cR hR r.1 m r.2 hone
+  have htok := protectRequest_token cipher cC m seq r hr
+  have hrecv : serverRecvAny cipher cs st r.1 = (.ok m r.2, cSet st ⟨m.token, r.2, isRegistration m.opts, cR⟩) := by
+    unfold serverRecvAny
+    simp only [hany, hsel, htok]
+  have hfind : cFind (serverRunAny cipher cs (serverRecvAny cipher cs st r.1).2 mid) m.token =
+      some ⟨m.token, r.2, isRegistration m.opts, cR⟩ := by
+    rw [cFind_run_ne cipher cs mid m.token hmid, hrecv]
+    simp only
+    rw [cFind_cSet]
+    simp
+  refine ⟨by rw [hrecv], hfind, ?_⟩
+  intro rm rseq sepMid pr st3 hrt hs hc hw hsend
+  unfold serverSendAny at hsend
+  rw [hrt, hfind] at hsend
+  simp only at hsend
+  cases hp : protectResponse cipher cR r.2 rm rseq sepMid with
+  | none => simp [hp] at hsend
+  | some pr0 =>
+    simp only [hp, Option.some.injEq, Prod.mk.injEq] at hsend
+    rw [← hsend.1]
+    exact unprotect_protect_response cipher cR cC r.2 rm rseq sepMid hRC hs hc hw pr0 hp
+
+/-- **The same for libcoap's server session (M)**: for every sequence of `decrypt` steps (a request arrives for which
+`oscore_find_context` returned the recipient context `pos`; verified or not, with or without Observe) and `protect` steps
+(a response has been protected), the recipient context `coap_oscore_new_pdu_encrypted_lkd` takes the Sender Context of a
+response from — `association->recipient_ctx` — is the one of the LATEST `decrypt` step with the response's token; and after a
+`decrypt` step for `t` it is that step's context whatever happens later to other tokens (in particular: whatever
+`session->recipient_ctx` has become).  A transcription that reads `session->recipient_ctx` instead does not satisfy it
+(`example` below). -/
+theorem response_ctx_is_request_ctx_impl (steps : List M.Oscore.SrvStep) :
+    (∀ t pos, M.Oscore.srvResponseCtx (M.Oscore.srvRun ⟨none, []⟩ steps) t = some pos →
+      M.Oscore.srvLatest steps t = some pos) ∧
+    (∀ t pos aad nonce piv v o (later : List M.Oscore.SrvStep), (∀ x ∈ later, SrvStepToken x ≠ t) →
+      M.Oscore.srvResponseCtx (M.Oscore.srvRun ⟨none, []⟩ (steps ++ [.decrypt t pos aad nonce piv v o] ++ later)) t = some pos) := by
+  constructor
+  · intro t pos h
+    have h0 : SrvInv ⟨none, []⟩ (fun _ => none) := by
+      intro t a ha
+      simp [M.Oscore.findSAssoc] at ha
+    have hinv := SrvInv_run steps ⟨none, []⟩ (fun _ => none) h0
+    unfold M.Oscore.srvResponseCtx at h
+    cases hf : M.Oscore.findSAssoc (M.Oscore.srvRun ⟨none, []⟩ steps).as t with
+    | none => simp [hf] at h
+    | some a =>
+      simp only [hf, Option.map_some, Option.some.injEq] at h
+      have := hinv t a hf
+      rw [← h]
+      exact this
+  · intro t pos aad nonce piv v o later hl
+    unfold M.Oscore.srvResponseCtx M.Oscore.srvRun
+    rw [List.foldl_append, List.foldl_append, List.foldl_cons, List.foldl_nil]
+    have h1 := findSAssoc_run_ne later t hl (M.Oscore.srvStep (List.foldl M.Oscore.srvStep ⟨none, []⟩ steps) (.decrypt t pos aad nonce piv v o))
+    unfold M.Oscore.srvRun at h1
+    rw [h1]
+    obtain ⟨a, ha, hr, _⟩ := (findSAssoc_decrypt (List.foldl M.Oscore.srvStep ⟨none, []⟩ steps) t pos aad nonce piv v o t).1 rfl
+    have hstep : M.Oscore.srvStep (List.foldl M.Oscore.srvStep ⟨none, []⟩ steps) (.decrypt t pos aad nonce piv v o) =
+        M.Oscore.srvDecrypt (List.foldl M.Oscore.srvStep ⟨none, []⟩ steps) t pos aad nonce piv v o := rfl
+    rw [hstep, ha]
+    simp [hr]
+
 /-! ### Non-vacuity: concrete instances of the hypotheses -/
 
 example : (pivBytes 20).length ≤ 5 ∧ (pivBytes (2 ^ 40 - 2)).length ≤ 5 ∧ 2 ^ 40 - 2 ≤ maxSeq := by decide
@@ -905,5 +995,17 @@ example :
 
 /-- RFC 8613 C.1.1 `info` for the Common IV through M -/
 example : M.Oscore.composeInfo 10 [] none labelIV 13 = [0x85, 0x40, 0xf6, 0x0a, 0x62, 0x49, 0x56, 0x0d] := by decide
+
+-- several contexts on one server session: request 1 for context (0,0), request 2 for context (1,0), then the response to
+-- request 1 — libcoap (M) protects it with (0,0); `session->recipient_ctx` is (1,0) by then (what seed C14-10 reads)
+example :
+    let s := M.Oscore.srvRun ⟨none, []⟩ [.decrypt [1] (0, 0) [] [] [0x14] true false, .decrypt [2] (1, 0) [] [] [0x15] true false]
+    M.Oscore.srvResponseCtx s [1] = some (0, 0) ∧ s.rcp = some (1, 0) ∧
+    M.Oscore.srvLatest [.decrypt [1] (0, 0) [] [] [0x14] true false, .decrypt [2] (1, 0) [] [] [0x15] true false] [1] = some (0, 0) ∧
+    M.Oscore.srvResponseCtx (M.Oscore.srvProtect s [1]) [1] = none := by decide
+example : (∀ s ∈ [XStep.recv ⟨0, 2, 7, [2], [(9, [9, 0x15, 0x0b])], [1, 2, 3]⟩, XStep.send ⟨1, 69, 9, [3], [], []⟩ none none], s.token ≠ [1]) := by
+  decide
+example : Unambiguous [⟨[1], [0x0a], none, 10, [1], [2], [3]⟩, ⟨[2], [0x0b], none, 10, [4], [5], [6]⟩] := by
+  unfold Unambiguous; decide
 
 end Coap.C14
